@@ -249,7 +249,7 @@ def generate(rng, k, tier="quick"):
         return base, comp
 
     cats = {}
-    n_steps = rng.randint(10, 18 if heavy else 30)
+    n_steps = rng.randint(10, 18 if heavy else 30) + (rng.randint(0, 15) if tier == "thorough" else 0)
     if rng.random() < 0.5:
         build_pair()
     else:
@@ -258,6 +258,24 @@ def generate(rng, k, tier="quick"):
     excursion = False
     while len(ops) < n_steps:
         r = rng.random()
+        if r > 0.93 and len(pop) < (3 if heavy else 6) and not excursion:
+            # an object that lives across a configuration change: built and first used
+            # under a FINE setting with a displacement far above that eps, asserted later
+            # under a COARSE one where the same displacement is <= eps/1000
+            jf = rng.choice([9, 10, 11, 12])
+            j = jf
+            ops.append({"op": rng.choice(["SET_EPS", "SET_SIG"]), "j": jf})
+            kk = rng.choice([5, 6, 7])
+            b, c = build_pair(base=rng.choice(pop)[0] if pop and rng.random() < 0.5 else None, kk=kk)
+            ops.append({"op": "CHECK_NEAR", "a": b, "b": c})
+            if rng.random() < 0.5:
+                ops.append({"op": "BATTERY"})
+            jc = rng.randint(5, kk)
+            j = jc
+            ops.append({"op": rng.choice(["SET_EPS", "SET_SIG"]), "j": jc})
+            ops.append({"op": "CHECK_GETTERS"})
+            ops.append({"op": "CHECK_NEAR", "a": b, "b": c})
+            continue
         if r < 0.22:
             set_config()
             if pop and rng.random() < 0.7:
@@ -362,6 +380,18 @@ def _pair_checks(A, B, sa, sb):
         out.append(("parallel:f(B,A)", call(G.parallel, B, A), True))
         r = call(G.orthogonal, A, B)
         out.append(("orthogonal:f(A,B)", True if r is False else (r if isinstance(r, Raised) else "T"), True))
+    if t in ("Segment", "HalfLine"):
+        # whole-object containment follows from "contain each other's points"
+        out.append(("in:A_in_B", call(lambda a, b: a in b, A, B), True))
+        out.append(("in:B_in_A", call(lambda a, b: a in b, B, A), True))
+    if t == "ConvexPolygon":
+        # the edges of one lie in the other (Segment in ConvexPolygon)
+        out.append(("in:edgesB_in_A", call(lambda a, b: all((s in a) is True for s in b.segments()), A, B), True))
+        out.append(("in:edgesA_in_B", call(lambda a, b: all((s in a) is True for s in b.segments()), B, A), True))
+    if t == "ConvexPolyhedron":
+        # faces and edges of one lie in the other (ConvexPolygon / Segment in ConvexPolyhedron)
+        for nm, x, y in (("in:partsB_in_A", A, B), ("in:partsA_in_B", B, A)):
+            out.append((nm, call(lambda a, b: all((f in a) is True for f in b.convex_polygons) and all((s in a) is True for s in sorted(b.segment_set, key=repr)), x, y), True))
     if t == "ConvexPolygon":
         out.append(("eqn:A.eq_with_normal(B)", call(lambda a, b: a.eq_with_normal(b), A, B), True))
         out.append(("eqn:B.eq_with_normal(A)", call(lambda a, b: a.eq_with_normal(b), B, A), True))
